@@ -216,9 +216,9 @@ def run(ctx, drv):
         ids = Ids()
         trace, before_states = [], []
         for s in sols:
-            before_states.append(list(arch._contents))
+            before_states.append(list(arch))
             fl = call(arch.add, s)
-            trace.append((fl, [ids(m) for m in arch._contents], getattr(arch, "improvements", None)))
+            trace.append((fl, [ids(m) for m in list(arch)], getattr(arch, "improvements", None)))
         for s in sols:
             ids(s)
         inp = {"maximise": list(dirs), "constrained": constrained, "epsilons": eps, "archive": ("Archive(EpsilonDominance)" if plain else "EpsilonBoxArchive") + f" [{src}]",
@@ -241,7 +241,7 @@ def run(ctx, drv):
             ctx.count("lattice_histories")
         # ---- oracle on the real archive
         bx = box_exact if lattice else box
-        members = list(arch._contents)
+        members = list(arch)
         boxes = [bx(dirs, eps, m) for m in members]
         rej = sum(1 for f, _, _ in trace if not f)
         evi = sum(1 for (f, m, _), b4 in zip(trace, before_states) if f and len(m) <= len(b4))
